@@ -215,6 +215,58 @@ class Poly:
         return " + ".join(parts).replace("+ -", "- ")
 
 
+def _mono_key(m):
+    """Graded-lex key of a monomial (a valid term order when no atom has a reduction rule)."""
+    return (sum(e for _, e in m), tuple(sorted(((_atom_key(a), e) for a, e in m))))
+
+
+def _mono_div(m, d):
+    md = dict(m)
+    for a, e in d:
+        if md.get(a, 0) < e:
+            return None
+        md[a] -= e
+        if md[a] == 0:
+            del md[a]
+    return tuple(sorted(md.items(), key=lambda ae: _atom_key(ae[0])))
+
+
+def try_divide(n: "Poly", d: "Poly"):
+    """Exact division n / d of multivariate polynomials, or None when d does not divide n.
+    Skipped (None) when atoms with reduction rules (i, indicators) occur."""
+    for p in (n, d):
+        for a in p.atoms():
+            if a == I or is_idempotent(a):
+                return None
+    if len(n.t) * len(d.t) > 60000:
+        return None
+    lt_d = max(d.t, key=_mono_key)
+    c_d = d.t[lt_d]
+    rem = dict(n.t)
+    quo = {}
+    guard = 0
+    while rem:
+        guard += 1
+        if guard > 5000:
+            return None
+        lt_r = max(rem, key=_mono_key)
+        qm = _mono_div(lt_r, lt_d)
+        if qm is None:
+            return None
+        qc = rem[lt_r] / c_d
+        quo[qm] = quo.get(qm, 0) + qc
+        for m, c in d.t.items():
+            s_, mm = mono_mul(m, qm)
+            v = rem.get(mm, 0) - s_ * c * qc
+            if v == 0:
+                rem.pop(mm, None)
+            else:
+                rem[mm] = v
+    out = Poly()
+    out.t = {m: c for m, c in quo.items() if c != 0}
+    return out
+
+
 def fmt_atom(a):
     if isinstance(a, str):
         return a
@@ -259,6 +311,16 @@ class Rat:
             if n == d:
                 n = Poly.const(1)
                 d = Poly.const(1)
+            elif len(d.t) > 1 and len(n.t) >= len(d.t) and (q := try_divide(n, d)) is not None:
+                n = q
+                d = Poly.const(1)
+            elif len(n.t) > 1 and len(d.t) > len(n.t) and (q := try_divide(d, n)) is not None and not q.is_zero():
+                d = q
+                n = Poly.const(1)
+                lead = d.t[min(d.t, key=repr)]
+                if lead != 1:
+                    n = n.scale(1 / lead)
+                    d = d.scale(1 / lead)
             else:
                 lead = d.t[min(d.t, key=repr)]
                 if lead != 1:
